@@ -1177,3 +1177,8 @@ Proof.
       eapply phase1i_frame; [exact Fr | exact P|].
       intros x Hx T. apply HL. eapply Cov; eassumption.
 Qed.
+
+(* a query of the rollback whose result set breaks off counts as a failed call: the validation read
+   checks rows.Err() after its loop (regenerated from executor.go queryCurrentRecords) *)
+Lemma read_errors_checked : exec_read_errors_checked = true.
+Proof. reflexivity. Qed.
